@@ -13,7 +13,7 @@ from pyvc.tree import (SEQ_ATTR as SeqAttr, ATTR_PAIR as AttrPair, PAT as Pat, A
                        FLAGS as Flags)
 from spec.vocab_tree import (parent, contents, idx, depth, is_tag, is_doc, is_navstr, is_comment, is_cdata, is_pi, is_decl,
                              is_doctype, text, name, prefix, namespace, is_xml_flag, next_sibling, previous_sibling, same,
-                             ascii_lower, ns_get, html_ns_map, fake_parent, rattrs, norm, as_str, is_str_val, ws_tokens, is_list_val, as_list, attr_ns, attr_local, pat_match, join_sp, has_non_ws, strip_nonempty, wild_strip, py_lower, split_dash, join_empty, NS_XHTML, NS_XML)
+                             ascii_lower, height, bidi_class, ns_get, html_ns_map, fake_parent, rattrs, norm, as_str, is_str_val, ws_tokens, is_list_val, as_list, attr_ns, attr_local, pat_match, join_sp, has_non_ws, strip_nonempty, wild_strip, py_lower, split_dash, join_empty, NS_XHTML, NS_XML)
 from spec.vocab_ir import (sel_is_null, SEL_EMPTY, SEL_ROOT, SEL_DEFAULT, SEL_INDETERMINATE, SEL_SCOPE, SEL_DIR_LTR, SEL_DIR_RTL,
                            SEL_IN_RANGE, SEL_OUT_OF_RANGE, SEL_DEFINED, SEL_PLACEHOLDER_SHOWN, DIR_FLAGS, RANGES)
 
@@ -32,6 +32,7 @@ SeqSelAttr = TSeq(SelAttr)
 SeqSelLang = TSeq(SelLang)
 SeqSelContains = TSeq(SelContains)
 OptInt = TOpt(INT)
+OptFlags = TOpt(Flags)
 
 
 # ---------------------------------------------------------------------------------------------- node kinds
@@ -208,11 +209,6 @@ def all_nth(m: M, ns: NsMap, ifr: bool, el: Node, nth: SeqSelNth, i: int) -> boo
 
 def sem_nth(m: M, ns: NsMap, ifr: bool, el: Node, nth: SeqSelNth) -> bool:
     return all_nth(m, ns, ifr, el, nth, 0)
-
-
-@abstract
-def sem_dir(m: M, el: Node, d: Flags) -> bool:
-    return _ref.sem_dir(m, el, d)
 
 
 def tag_desc(m: M, el: Node, no_iframe: bool) -> SeqNode:
@@ -1074,3 +1070,113 @@ def indet_cache_ok(m: M, cache: IndetCache, i: int) -> bool:
     return (cache[i][0] is not None and
             cache[i][2] == (not group_checked(m, cache[i][0], cache[i][1], desc_spec(m, cache[i][0], True, True), 0, None)) and
             indet_cache_ok(m, cache, i + 1))
+
+
+# ---------------------------------------------------------------------------------------------- :dir() (C17): HTML directionality
+
+def dir_value(v: str) -> OptFlags:
+    """The dir attribute's keyword (already ASCII-lowered): ltr, rtl, auto (0), otherwise not in a defined state (None)."""
+    if v == 'ltr':
+        return SEL_DIR_LTR
+    if v == 'rtl':
+        return SEL_DIR_RTL
+    if v == 'auto':
+        return 0
+    return None
+
+
+@named
+def dir_attr(el: Node) -> OptFlags:
+    return dir_value(ascii_lower(as_str(attr_by_name(el, 'dir', ''))))
+
+
+def first_strong(s: str, i: int) -> OptFlags:
+    """Direction of the first character of bidirectional class L, AL or R in s[i:]."""
+    if i < 0 or i >= len(s):
+        return None
+    if bidi_class(s[i]) == 'L':
+        return SEL_DIR_LTR
+    if bidi_class(s[i]) == 'AL' or bidi_class(s[i]) == 'R':
+        return SEL_DIR_RTL
+    return first_strong(s, i + 1)
+
+
+def all_kids(m: M, n: Node) -> SeqNode:
+    """What get_children(n) yields with its defaults: every child node, in order."""
+    return kids_spec(m, n, None, False, False, False)
+
+
+@named
+def bidi_skip(m: M, n: Node) -> bool:
+    """Children not consulted by dir=auto: bdi, script, style, textarea, iframe, foreign elements, elements with their own dir."""
+    nm = tag_name(m, n)
+    return (nm == 'bdi' or nm == 'script' or nm == 'style' or nm == 'textarea' or nm == 'iframe' or
+            not is_html_el(m, n) or dir_attr(n) is not None)
+
+
+def bidi_of(m: M, seq: SeqNode, i: int) -> OptFlags:
+    """Direction of the first strong character in tree order among the nodes seq[i:] and their consulted descendants."""
+    if i < 0 or i >= len(seq):
+        return None
+    if is_tag(seq[i]):
+        if bidi_skip(m, seq[i]):
+            return bidi_of(m, seq, i + 1)
+        if bidi_of(m, all_kids(m, seq[i]), 0) is not None:
+            return bidi_of(m, all_kids(m, seq[i]), 0)
+        return bidi_of(m, seq, i + 1)
+    if is_special(seq[i]):
+        return bidi_of(m, seq, i + 1)
+    if first_strong(text(seq[i]), 0) is not None:
+        return first_strong(text(seq[i]), 0)
+    return bidi_of(m, seq, i + 1)
+
+
+@named
+def auto_text_input(m: M, el: Node) -> bool:
+    """Elements whose dir=auto looks at their value: textarea and the text-like input types."""
+    t = ascii_lower(as_str(attr_by_name(el, 'type', '')))
+    return tag_name(m, el) == 'textarea' or (tag_name(m, el) == 'input' and
+                                             (t == 'text' or t == 'search' or t == 'tel' or t == 'url' or t == 'email'))
+
+
+@named
+def auto_value(m: M, el: Node) -> str:
+    if tag_name(m, el) == 'textarea':
+        return join_empty(texts_from(own_contents(m, el, True), 0))
+    return as_str(attr_by_name(el, 'value', ''))
+
+
+def dir_of(m: M, el: Node) -> OptFlags:
+    """HTML directionality of el: its dir attribute; ltr for the root and for input[type=tel]; for dir=auto (and bdi) the first
+    strong character of its value / consulted text; otherwise its parent's (same document); None when nothing decides."""
+    if el is None or not is_html_el(m, el):
+        return None
+    dd = dir_attr(el)
+    if dd is not None and dd != 0:
+        return dd
+    if is_root_el(m, el) and dd is None:
+        return SEL_DIR_LTR
+    if (tag_name(m, el) == 'input' and ascii_lower(as_str(attr_by_name(el, 'type', ''))) == 'tel') and dd is None:
+        return SEL_DIR_LTR
+    if auto_text_input(m, el) and dd is not None:
+        if auto_value(m, el) != '':
+            if first_strong(auto_value(m, el), 0) is not None:
+                return first_strong(auto_value(m, el), 0)
+            return SEL_DIR_LTR
+        if is_root_el(m, el):
+            return SEL_DIR_LTR
+        return dir_of(m, parent_of(m, el, True))
+    if (tag_name(m, el) == 'bdi' and dd is None) or dd is not None:
+        if bidi_of(m, all_kids(m, el), 0) is not None:
+            return bidi_of(m, all_kids(m, el), 0)
+        if is_root_el(m, el):
+            return SEL_DIR_LTR
+        return dir_of(m, parent_of(m, el, True))
+    return dir_of(m, parent_of(m, el, True))
+
+
+def sem_dir(m: M, el: Node, d: Flags) -> bool:
+    """:dir(ltr) / :dir(rtl): the element's directionality is the one asked for (never both)."""
+    if (d & SEL_DIR_LTR) != 0 and (d & SEL_DIR_RTL) != 0:
+        return False
+    return dir_of(m, el) is not None and dir_of(m, el) == d
